@@ -279,6 +279,10 @@ def w3(out, tier):
     corpus = {f"shape/{k}": IMPORTS + v for k, v in SHAPES.items()}
     corpus.update({f"core/{k}": v for k, v in CORPUS.items()})
     corpus.update({f"device/{k}": v for k, v in scenarios().items()})
+    if tier == "thorough":
+        from progs.gen import programs
+        for gs in (0, 1, 2):
+            corpus.update({f"generated/{k}": v for k, v in programs(150, seed=gs).items()})
     t0 = time.time()
     with mp.Pool(16) as pool:
         res = pool.map(_w3_one, sorted(corpus.items()), chunksize=1)
